@@ -15,6 +15,8 @@ Targets == {"any", "raw", "bytes", "int", "string", "struct", "map"}
 Faults == {"none", "truncate", "garbage", "twovalues", "emptymsg", "binaryframe"}
 Rows == SetToSeq({ [shape |-> s, target |-> t, fault |-> f] : s \in Shapes(Depth), t \in Targets, f \in Faults })
         \o SetToSeq({ [shape |-> Huge, target |-> t, fault |-> "none"] : t \in {"any", "string", "raw"} })
+        \* a document that is valid JSON but not valid for a deeply nested target: invalid for the target all the same (1007)
+        \o SetToSeq({ [shape |-> [k |-> "leaf", v |-> "num"], target |-> "deepstruct", fault |-> f] : f \in {"none", "deeptype", "truncate", "garbage"} })
 ASSUME PrintT(<<"rows", Len(Rows)>>)
 ASSUME ndJsonSerialize(IOEnv.OUT, Rows)
 VARIABLE x
